@@ -4,6 +4,7 @@ package driver
 
 import (
 	"bufio"
+	"math/rand"
 	"encoding/json"
 	"fmt"
 	"os"
@@ -144,6 +145,7 @@ type harnessResult struct {
 	newViol     []sym.Outcome
 	known       map[string][]sym.Outcome
 	okSamples   []sym.Outcome
+	okSeen      int
 }
 
 func buildOverlay(repo, hdir, rtFile string, filter func(name string) bool) (map[string][]byte, []string, map[string]string, error) {
@@ -203,7 +205,12 @@ func fileFilter(prop string) func(string) bool {
 }
 
 // explore runs one harness to exhaustion (or budget) on nw workers.
-func explore(P *sym.Program, name string, base sym.Config, hc *HarnessCfg, regions map[string][]*sym.Region, nw int, verbose bool) *harnessResult {
+func explore(P *sym.Program, name string, base sym.Config, hc *HarnessCfg, regions map[string][]*sym.Region, nw int, verbose bool, seed int64) *harnessResult {
+	rng := rand.New(rand.NewSource(seed + 1))
+	okReservoir := 8
+	if base.Tier == "thorough" {
+		okReservoir = 24
+	}
 	cfg := base
 	if hc.Unwind > 0 {
 		cfg.Unwind = hc.Unwind
@@ -312,8 +319,12 @@ func explore(P *sym.Program, name string, base sym.Config, hc *HarnessCfg, regio
 						res.newViol = append(res.newViol, out)
 					}
 				case "ok":
-					if len(res.okSamples) < 3 {
+					// reservoir sample of ok paths for native cross-validation
+					res.okSeen++
+					if len(res.okSamples) < okReservoir {
 						res.okSamples = append(res.okSamples, out)
+					} else if k := rng.Intn(res.okSeen); k < okReservoir {
+						res.okSamples[k] = out
 					}
 				}
 				if verbose && out.Kind != "ok" && out.Kind != "infeasible" {
@@ -507,11 +518,20 @@ func confirms(o sym.Outcome, res map[string]any) bool {
 	id, _ := res["id"].(string)
 	switch o.Kind {
 	case "violation":
-		return kind == "violation" && id == o.ID
+		// the native oracles (real tokenizer) may attribute the failure to a
+		// sibling assertion of the same group ("C01.sink.*")
+		return kind == "violation" && (id == o.ID || assertGroup(id) == assertGroup(o.ID))
 	case "panic":
 		return kind == "panic" || kind == "crash" || kind == "stack-overflow"
 	case "unwind", "steps":
 		return kind == "timeout" || kind == "stack-overflow" || kind == "crash"
 	}
 	return false
+}
+
+func assertGroup(id string) string {
+	if i := strings.LastIndexByte(id, '.'); i > 0 {
+		return id[:i]
+	}
+	return id
 }
